@@ -79,6 +79,8 @@ Proof.
                 | Some x0 => Some (VList (as_list cur ++ [if i_pointer (field_info s f) then VMsg (Some x0) else VEmb (fst x0) (snd x0)])) | None => None end
               else if i_pointer (field_info s f) then
                 match rec idx b (match cur with VMsg (Some x0) => x0 | _ => zero_of s idx end) with Some x0 => Some (VMsg (Some x0)) | None => None end
+              else if i_oneof (field_info s f) then
+                match rec idx b (match cur with VOpt (Some (VEmb fs2 u2)) => (fs2, u2) | _ => zero_of s idx end) with Some x0 => Some (VOpt (Some (VEmb (fst x0) (snd x0)))) | None => None end
               else match rec idx b (match cur with VEmb fs2 u2 => (fs2, u2) | _ => zero_of s idx end) with Some x0 => Some (VEmb (fst x0) (snd x0)) | None => None end
           | _ => None end
       | CNone, TMap kk vk =>
@@ -96,7 +98,8 @@ Proof.
       destruct (tok_scalar _ tok); try reflexivity. destruct (t_pay tok); try reflexivity. destruct (is_bytes_kind _); try reflexivity.
       destruct (unpack _ _ _); reflexivity.
     - destruct (t_pay tok); try reflexivity. destruct (i_repeated (field_info s f)); [destruct (rec idx b (zero_of s idx)); reflexivity|].
-      destruct (i_pointer (field_info s f)); destruct (rec idx b _); reflexivity.
+      destruct (i_pointer (field_info s f)); [destruct (rec idx b _); reflexivity|].
+      destruct (i_oneof (field_info s f)); destruct (rec idx b _); reflexivity.
     - destruct (t_pay tok); try reflexivity. destruct (map_entry_of kk vk b) as [[k v]|]; reflexivity.
     - destruct (t_pay tok); try reflexivity. destruct (cast_value _ b); try reflexivity. destruct (i_repeated (field_info s f)); try reflexivity.
       destruct (i_oneof (field_info s f) || i_pointer (field_info s f)); reflexivity.
